@@ -340,7 +340,7 @@ Fixpoint reval (e : expr) (fr : frame) (g : glob) {struct e} : res eout :=
                       | Some (o, g') => Res o fr g'
                       | None => Fuel
                       end
-                  | None => Res (EX (err "argument not passed")) fr g
+                  | None => Res (EX (VErr "argument not passed")) fr g
                   end
               | Res (inr x) fr g => Res (EX x) fr g
               | Fuel => Fuel
@@ -397,7 +397,7 @@ with reval_nargs (ok : string -> list (string * value) -> bool) (xs : list strin
           match reval e fr g with
           | Res (EV v) fr g =>
               if ok x seen then reval_nargs ok xr (seen ++ [(x, v)])%list r fr g
-              else Res (inr (err "named parameter")) fr g
+              else Res (inr (VErr "named parameter")) fr g
           | Res (EX w) fr g => Res (inr w) fr g
           | Fuel => Fuel
           end
